@@ -6,7 +6,8 @@
 From Coq Require Import List QArith Bool Arith Permutation Lqa.
 Import ListNotations.
 Require Import DH.C19_Aggregators.Model DH.C19_Aggregators.Lemmas DH.C19_Aggregators.LemmasInv
-  DH.C19_Aggregators.LemmasScale DH.C19_Aggregators.LemmasEntropy DH.C19_Aggregators.LemmasToday DH.C19_Aggregators.Check.
+  DH.C19_Aggregators.LemmasScale DH.C19_Aggregators.LemmasEntropy DH.C19_Aggregators.LemmasToday DH.C19_Aggregators.Check
+  DH.C19_Aggregators.LemmasMain.
 Open Scope Q_scope.
 
 (* ---- uniform weights equal no weights; more generally any rescaling of the weights changes nothing.
@@ -40,7 +41,7 @@ Print Assumptions C19_zero_weight_ignored_member_split.
 Theorem C19_mean_between_extremes : forall l, wnonneg l -> 0 < wtot l ->
   qmin (vals l) <= mean l <= qmax (vals l)
   /\ (forall lo hi, (forall x, active_in x l -> lo <= x <= hi) -> lo <= mean l <= hi).
-Proof. intros l Hw HW. split; [apply mean_between_extremes; assumption|intros lo hi H; apply mean_between; assumption]. Qed.
+Proof. exact mean_between_extremes_main. Qed.
 Print Assumptions C19_mean_between_extremes.
 
 Theorem C19_scale_nonneg : forall l, wnonneg l -> 0 < wtot l -> 0 <= mean_var l.
@@ -53,7 +54,7 @@ Proof. exact mn_variance_split. Qed.
 Print Assumptions C19_mixture_variance.
 
 Theorem C19_variances_nonneg : forall l, wnonneg l -> 0 < wtot l -> 0 <= mn_ale l /\ 0 <= mn_epi l /\ 0 <= mn_total l.
-Proof. intros l Hw HW. split; [apply mn_ale_nonneg|split; [apply mn_epi_nonneg|apply mn_total_nonneg]]; assumption. Qed.
+Proof. exact variances_nonneg_main. Qed.
 Print Assumptions C19_variances_nonneg.
 
 (* F18: the pinned tree's decomposed branch (unweighted std of the locs) breaks the identity ... *)
@@ -87,12 +88,7 @@ Theorem C19_decomposition_nonneg : forall K l, (0 < K)%nat -> wnonneg l -> 0 < w
   (forall p, unmasked_in p l -> row_ok 1 K p) ->
   0 <= cat_conf_ale 1 l /\ 0 <= cat_conf_epi 1 K l /\ cat_conf_ale 1 l <= cat_conf 1 K l
   /\ cat_conf 1 K l == cat_conf_ale 1 l + cat_conf_epi 1 K l.
-Proof.
-  intros K l HK Hw HW H.
-  assert (forall p, unmasked_in p l -> length p = K) as Hlen by (intros p Hp; apply H, Hp).
-  split; [apply (cat_conf_ale_nonneg 1 K); assumption|]. split; [apply epi_part_nonneg|].
-  split; [apply cat_conf_ale_le_total; assumption|apply cat_conf_split; assumption].
-Qed.
+Proof. exact decomposition_nonneg_main. Qed.
 Print Assumptions C19_decomposition_nonneg.
 
 (* ---- decomposition (entropy), for EVERY oracle lg standing for log:
@@ -109,13 +105,7 @@ Theorem C19_entropy_decomposition : forall (lg : Q -> Q) (eps : Q), (forall x y,
   /\ ((forall t x y, 0 <= t <= 1 -> 0 <= x <= 1 -> 0 <= y <= 1 ->
          t * phi lg eps x + (1 - t) * phi lg eps y <= phi lg eps (t * x + (1 - t) * y)) ->
       cat_ent_ale ml <= cat_ent K ml lgE /\ cat_ent K ml lgE == cat_ent_ale ml + cat_ent_epi K ml lgE).
-Proof.
-  intros lg eps Hp K l Hw HW H ml lgE. unfold ml, lgE.
-  split; [apply epi_part_nonneg|]. split; [apply cat_ent_fun|]. split; [apply cat_ent_ale_fun|]. split.
-  - intros Hm. split; [apply (cat_ent_ale_lower lg eps Hm K); assumption|].
-    rewrite cat_ent_fun. apply (ent_lower lg eps Hm K). apply (cat_loc_distribution 1); assumption.
-  - intros Hc. apply (cat_ent_split lg eps Hp Hc); assumption.
-Qed.
+Proof. exact entropy_decomposition_main. Qed.
 Print Assumptions C19_entropy_decomposition.
 
 (* ---- the mode is an argmax of the normalised weighted vote counts; uncertainty = 1 - max count in [0, 1 - 1/K] ---- *)
@@ -126,7 +116,7 @@ Theorem C19_mode_weighted_vote : forall K l, (0 < K)%nat -> wnonneg l -> 0 < wto
   /\ (forall k, (k < K)%nat -> nth k (counts K l) 0 <= nth (mode K l) (counts K l) 0)
   /\ mode_unc K l == 1 - nth (mode K l) (counts K l) 0
   /\ 0 <= mode_unc K l <= 1 - 1 / inject_Z (Z.of_nat K).
-Proof. intros K l HK Hw HW H. split; [apply counts_distribution; assumption|apply mode_spec; assumption]. Qed.
+Proof. exact mode_weighted_vote_main. Qed.
 Print Assumptions C19_mode_weighted_vote.
 
 (* F24: the pinned tree does not normalise the weights: [1,1,1] gives uncertainty -1, None gives 1/3 *)
@@ -158,10 +148,7 @@ Theorem C19_scale_mean_normal : forall c l1 l2, ~ wtot l1 == 0 -> ~ wtot l2 == 0
   mean (pmap (Qmult c) l1) == c * mean l1 /\ mean_var (pmap (Qmult c) l1) == (c * c) * mean_var l1
   /\ mn_loc (pmap (scale2 c) l2) == c * mn_loc l2 /\ mn_total (pmap (scale2 c) l2) == (c * c) * mn_total l2
   /\ mn_ale (pmap (scale2 c) l2) == (c * c) * mn_ale l2 /\ mn_epi (pmap (scale2 c) l2) == (c * c) * mn_epi l2.
-Proof.
-  intros c l1 l2 H1 H2. split; [apply scale_mean, H1|]. split; [apply scale_mean_var, H1|]. split; [apply scale_mn_loc, H2|].
-  split; [apply scale_mn_total, H2|]. split; [apply scale_mn_ale, H2|apply scale_mn_epi, H2].
-Qed.
+Proof. exact scale_mean_normal_main. Qed.
 Print Assumptions C19_scale_mean_normal.
 
 Theorem C19_scale_categorical : forall c d u K l le lgE, 0 < c -> 0 < d -> ~ wtot l == 0 -> ~ wtot le == 0 ->
@@ -174,12 +161,7 @@ Theorem C19_scale_categorical : forall c d u K l le lgE, 0 < c -> 0 < d -> ~ wto
   /\ cat_ent_epi K (pmap (scale_pl c d) le) (map (Qmult d) lgE) == (c * d) * cat_ent_epi K le lgE
   /\ counts K (pmap (map (Qmult c)) l) = counts K l
   /\ mode K (pmap (map (Qmult c)) l) = mode K l /\ mode_unc K (pmap (map (Qmult c)) l) = mode_unc K l.
-Proof.
-  intros c d u K l le lgE Hc Hd HW HWe. assert (0 < c * d) as Hcd by nra.
-  split; [apply scale_cat_loc, HW|]. split; [apply scale_cat_conf; assumption|]. split; [apply scale_cat_conf_ale; assumption|].
-  split; [apply scale_cat_conf_epi; assumption|]. split; [apply scale_cat_ent, HWe|]. split; [apply scale_cat_ent_ale, HWe|].
-  split; [apply scale_cat_ent_epi; assumption|]. split; [apply scale_counts, Hc|apply scale_mode, Hc].
-Qed.
+Proof. exact scale_categorical_main. Qed.
 Print Assumptions C19_scale_categorical.
 
 (* ---- the oracles used on the implementation's outputs decide exactly their specifications ... ---- *)
@@ -191,10 +173,7 @@ Theorem C19_oracles : forall tol,
   /\ (forall K c, ok_conf_range tol K c = true <-> ConfRange tol K c)
   /\ (forall s t a e, ok_decomp tol s t a e = true <-> Decomp tol s t a e)
   /\ (forall K l md unc, ok_mode tol K l md unc = true <-> ModeSpec tol K l md unc).
-Proof.
-  intros tol. split; [apply closeb_spec|]. split; [apply ok_between_spec|]. split; [apply ok_variance_split_spec|].
-  split; [apply ok_distribution_spec|]. split; [apply ok_conf_range_spec|]. split; [apply ok_decomp_spec|apply ok_mode_spec].
-Qed.
+Proof. exact oracles_main. Qed.
 Print Assumptions C19_oracles.
 
 (* ---- ... and the model meets every specification with tolerance 0 ---- *)
@@ -206,11 +185,7 @@ Theorem C19_model_meets_specs :
         /\ Decomp 0 true (cat_conf 1 K l) (cat_conf_ale 1 l) (cat_conf_epi 1 K l))
   /\ (forall K l, (0 < K)%nat -> wnonneg l -> 0 < wtot l -> (forall p, unmasked_in p l -> length p = K) ->
         ModeSpec 0 K l (mode K l) (mode_unc K l)).
-Proof.
-  split; [exact model_mean_between|]. split; [exact model_variance_split|]. split.
-  - intros K l HK Hw HW H. split; [apply model_distribution; assumption|]. split; [apply model_conf_range; assumption|apply model_conf_decomp; assumption].
-  - exact model_mode.
-Qed.
+Proof. exact model_meets_specs_main. Qed.
 Print Assumptions C19_model_meets_specs.
 
 (* ---- non-vacuity ---- *)
